@@ -415,7 +415,10 @@ def _directed(ctx):
                     (Union[A1, A2, None], Optional[Union[A2, A1]])]
     for a, b in pairs_equal:
         check_equivalent(ctx, ("leaf", a), a, b, 0, predicates=bool(typing.get_args(a)) or a is None)
-    pairs_diff = [(L[0], L[False]), (Union[L[0], L[False]], L[0]), (L[0, False], L[0]), (L[1, True], L[True]), (Union[int, str], Union[int, bytes]), (List[int], List[bool])]
+    # members of two DIFFERENT enums that share class name, member name and value (Order.Status.NEW / User.Status.NEW) are different literals
+    # (seeded change: literal equality compared the sort keys, which are texts)
+    pairs_diff = [(L[0], L[False]), (Union[L[0], L[False]], L[0]), (L[0, False], L[0]), (L[1, True], L[True]), (Union[int, str], Union[int, bytes]), (List[int], List[bool]),
+                  (L[E1.RED], L[E2.RED]), (List[L[E1.RED, "x"]], List[L[E2.RED, "x"]]), (Union[L[E1.RED], L[E2.RED]], L[E1.RED]), (Dict[str, L[E1.RED]], Dict[str, L[E2.RED]])]
     for a, b in pairs_diff:
         n1, n2 = normalize_type(a), normalize_type(b)
         ctx.evaluated(("directed-differ", show(a), show(b)))
